@@ -116,7 +116,7 @@ def subterms(t):
         x = stk.pop()
         if isinstance(x, tuple):
             yield x
-            for y in x[1:]:
+            for y in (x if isinstance(x[0], tuple) else x[1:]):        # a struct's field list starts with a (name, value) pair
                 if isinstance(y, tuple):
                     stk.append(y)
 
@@ -429,6 +429,7 @@ class Engine:
         self.pure = set()            # callees shown elsewhere not to modify their arguments' objects
         self.clobber_pre = {}        # havoc atom -> value the location had before the clobbering call
         self.clobber_origin = {}     # havoc atom -> location it stands for (value after a call that may have written it)
+        self.restore_invariants = True
         self.auto_inline = True      # inline helpers that did not exist when the rules were written (known_functions.json)
         self.auto_inlined = set()
 
@@ -464,7 +465,82 @@ class Engine:
         act = _Activation(self, u, fname, out, depth=0)
         act.run(u.body(fname), st)
         self.npaths += len(out)
+        if self.restore_invariants:
+            self._restore_invariants(out)
         return out
+
+    def _restore_invariants(self, out):
+        """A location is havocked at a loop head because some statement of the body assigns it.  If no path that runs
+        back to the head leaves it changed (every assignment is followed by an exit: `rv.code = E; goto out;`, a status
+        set just before `break`), it holds its pre-loop value at every visit of the head, by induction - the havoc value
+        is replaced by that value in all paths.  Decided per havoc value, iterated for nested loops."""
+        for _ in range(4):
+            info = {}
+            for p in out:
+                for node, lmap in p.loops:
+                    for k, (h, pre) in lmap.items():
+                        if pre is not None and h[0] == 'h' and not contains(pre, h) and h != pre:
+                            info.setdefault(h, [k, pre, True])
+            if not info:
+                return
+            for p in out:
+                if p.end == 'loopback' and p.loops:
+                    for k, (h, pre) in p.loops[-1][1].items():
+                        if h in info:
+                            v = mem_read(p.mem, k, h)
+                            while isinstance(v, tuple) and v[0] == 'cast':
+                                v = v[2]
+                            if v != h:
+                                info[h][2] = False
+            sub = {h: pre for h, (k, pre, ok) in info.items() if ok}
+            if not sub:
+                return
+            for _c in range(8):             # close the map: a pre-loop value may be the (invariant) variable of an earlier loop
+                nxt = {h: substitute(v, sub) for h, v in sub.items()}
+                if nxt == sub:
+                    break
+                sub = nxt
+            hs = set(sub)
+
+            def S(t):
+                return substitute(t, sub) if isinstance(t, tuple) and any(x in hs for x in subterms(t)) else t
+            done = set()
+            for p in out:
+                if id(p.mem) not in done:
+                    done.add(id(p.mem))
+                    new = {S(k): S(v) for k, v in p.mem.items()}
+                    p.mem.clear()
+                    p.mem.update(new)
+                if id(p.conds) not in done:
+                    done.add(id(p.conds))
+                    p.conds[:] = [(S(c), n) for c, n in p.conds]
+                for e in p.effects:
+                    if id(e) in done:
+                        continue
+                    done.add(id(e))
+                    e.args = tuple(S(a) for a in e.args)
+                    if isinstance(e.result, tuple):
+                        e.result = S(e.result)
+                    if isinstance(e.name, tuple):
+                        e.name = S(e.name)
+                    if isinstance(e.extra, tuple):
+                        e.extra = S(e.extra)
+                if isinstance(p.ret, tuple):
+                    p.ret = S(p.ret)
+                for node, lmap in p.loops:
+                    if id(lmap) in done:
+                        continue
+                    done.add(id(lmap))
+                    for k in list(lmap):
+                        h, pre = lmap[k]
+                        if h in hs:
+                            lmap[k] = (sub[h], pre)          # the variable is its pre-loop value throughout
+                        elif isinstance(pre, tuple):
+                            lmap[k] = (h, S(pre))
+            for d in (self.types, self.optype, self.clobber_pre, self.clobber_origin):
+                for k in list(d):
+                    if isinstance(k, tuple) and any(x in hs for x in subterms(k)):
+                        d.setdefault(S(k), d[k] if not isinstance(d[k], tuple) else S(d[k]))
 
     def is_pure(self, name, _stack=()):
         """syntactic purity: the function (and everything it calls) never stores through
